@@ -17,7 +17,7 @@ func init() {
 		Rule: "case = sketches A, B (C) reached by seeded histories (either variant, any of the 5 store kinds, any mapping kind), encoded with omitIndexMapping in {true,false} into a caller buffer with an arbitrary prefix and spare capacity, decoded into every target store kind: " +
 			"(1) prefix bytes untouched and the source's observation unchanged by Encode; (2) decoded mapping Equals the source's and the decoded observation is bitwise the source's (bin-for-bin through the fold model when the target is bounded); arbitrary float weights: per bin |decoded-v| <= ulp(v+1); (3) X.DecodeAndMergeWith(Encode(Y)) is identical to X.MergeWith(Y); (4) decoding Encode(A)||Encode(B)||... equals merging A, B, ...; (5) the independent parser recovers the model content. " +
 			"Non-trivial = encoding with >=2 store blocks or a layout other than contiguous counts; distinct = hash of the histories.",
-		Cases:     core.Scale(6000, 200000),
+		Cases:     core.Scale(40000, 1000000),
 		Mandatory: []string{"oracle.roundtrip_equalities", "oracle.append_only_checks", "oracle.source_unchanged", "oracle.decode_merge_equivalence", "oracle.concatenation_checks", "oracle.independent_parse", "oracle.lossy_weight_checks", "layout.positive.index_deltas", "layout.positive.index_deltas_and_counts", "layout.positive.contiguous_counts", "decode.omitted_mapping", "decode.into_bounded_target"},
 		Assumptions: []string{
 			"dyadic weights under the exactness budget survive the (v+1)-1 transform exactly",
@@ -30,7 +30,7 @@ func init() {
 		Rule: "direction 1 (implementation -> documentation): encodings of sketches reached by seeded histories (both variants, all store and mapping kinds) are parsed by the independent codec written from flag.go's documentation; blocks must be well-formed and the content (mapping kind/gamma/offset bitwise, zero weight, bins, count/sum/min/max) must equal the model. " +
 			"direction 2 (documentation -> implementation): streams generated from the documented grammar (blocks in any order, three bin layouts, N=0, negative/zero/large deltas and strides, repeated indexes, repeated zero-count/store/identical mapping blocks, statistics blocks interleaved) are decoded by DecodeDDSketch / DecodeDDSketchWithExactSummaryStatistics / DecodeAndMergeWith into every store kind; content must equal the sum the documentation assigns. " +
 			"Also: the plain decoder accepts exact-summary encodings with identical bins. Non-trivial = stream with >=3 blocks and >=2 distinct layouts or a non-unit stride; distinct = hash of the stream.",
-		Cases:     core.Scale(8000, 250000),
+		Cases:     core.Scale(120000, 3000000),
 		Mandatory: []string{"oracle.independent_parse", "oracle.independent_parse.exact", "oracle.grammar_streams_decoded", "oracle.plain_decoder_on_exact_encoding", "grammar.stride_nonunit", "grammar.stride_negative", "grammar.stride_zero", "grammar.repeated_index", "grammar.empty_block", "grammar.mapping_last", "grammar.mapping_repeated", "grammar.statistics_blocks", "decoder.exact", "decoder.merge_into_nonempty"},
 		Assumptions: []string{
 			"the reference codec in /verif/harness/internal/wire is itself faithful to the format documentation",
@@ -144,6 +144,12 @@ func runC06(c *core.Ctx) {
 		omit3 := r.Bool()
 		var eb []byte
 		c.Guard("Encode", func() { A.s.I().Encode(&eb, omit3) })
+		// receivers that have been queried since their last addition (their buffers are sorted, caches warm)
+		if r.Bool() {
+			mon.Observe(X1.s, nil)
+			mon.Observe(X2.s, nil)
+			c.Count("decode_merge.receiver_queried_first", 1)
+		}
 		var e1, e2 error
 		c.Guard("DecodeAndMergeWith", func() { e1 = X1.s.I().DecodeAndMergeWith(eb) })
 		c.Guard("MergeWith", func() { e2 = X2.s.MergeWith(A.s) })
@@ -293,6 +299,10 @@ func runC06Lossy(c *core.Ctx, r *rng.Rng, m *gen.Map, spec gen.StoreSpec, exact 
 // ---------- C07 ----------
 
 func runC07(c *core.Ctx) {
+	if c.Index%8 == 6 {
+		runC07ArbitraryWeights(c)
+		return
+	}
 	if c.Index%2 == 0 {
 		runC07Impl2Doc(c)
 	} else {
@@ -344,6 +354,104 @@ func runC07Impl2Doc(c *core.Ctx) {
 		c.NonTrivial()
 		c.Sample(map[string]interface{}{"direction": "implementation->documentation", "exact": exact, "mapping": m.Desc, "store": spec.String(), "bytes": len(e), "blocks": blockNames(blocks, 10)})
 	}
+}
+
+// runC07ArbitraryWeights: encodings whose counts are arbitrary floats (long varfloat encodings, 9-byte
+// counts). The oracle is the reference codec itself: whatever the stream holds according to the
+// documentation is what every decoder must recover, bit for bit.
+func runC07ArbitraryWeights(c *core.Ctx) {
+	r := c.R
+	m := gen.RandMap(r, true)
+	spec := gen.RandPlainStore(r)
+	exact := r.P(0.7)
+	s := mon.NewSketch(exact, m.M, spec)
+	vs := genValues(c, r, m, gen.StoreSpec{Kind: gen.SDense}, r.Range(1, 30), []string{"mixed", "mixed+zeros", "pos"}[r.Intn(3)], randSigmaIdx(r, 100))
+	for _, v := range vs.vals {
+		var w float64
+		switch r.Intn(5) {
+		case 0:
+			w = []float64{0.1, 0.9, 1.0 / 3, 4.0 / 3, 5.6, 0.7, 2.2}[r.Intn(7)]
+		case 1:
+			w = r.Float()
+		case 2:
+			w = r.LogUniform(1e-6, 1e9)
+		case 3:
+			w = 1
+		default:
+			w = float64(r.Range(1, 1000)) / 7
+		}
+		c.SigF(v)
+		c.SigF(w)
+		if err := s.I().AddWithCount(v, w); err != nil {
+			c.Failf("AddWithCount.rejected", "AddWithCount(%v,%v): %v", v, w, err)
+			return
+		}
+	}
+	if r.P(0.3) {
+		s.I().Reweight([]float64{0.1, 0.3, 1.7, 1e-3}[r.Intn(4)])
+	}
+	var e []byte
+	omit := r.P(0.3)
+	if c.Guard("Encode", func() { s.I().Encode(&e, omit) }) {
+		return
+	}
+	c.Count("oracle.independent_parse", 1)
+	c.Count("arbitrary_weight_encodings", 1)
+	blocks, err := wire.Parse(e)
+	if err != nil {
+		c.Failf("wire.malformed", "the encoding is not a sequence of documented blocks: %v", err)
+		return
+	}
+	ct := wire.ContentOf(blocks)
+	for i := range blocks {
+		if blocks[i].Type() == wire.TypeFeature && blocks[i].Sub() == wire.SubCount {
+			c.Count("count_block_bytes."+itoa(blocks[i].End-blocks[i].Start-1), 1)
+			if want := wire.VarfloatRoundTrip(s.I().GetCount()); blocks[i].Value != want {
+				c.Failf("wire.count", "count block holds %v, expected (count+1)-1 = %v", blocks[i].Value, want)
+			}
+		}
+	}
+	c.Logf("arbitrary weights: exact=%v mapping %s store %s, %d bytes, blocks %v", exact, m.Desc, spec, len(e), blockNames(blocks, 10))
+	for _, dec := range []bool{false, true} {
+		if dec && !exact {
+			continue // the exact decoder documents that it cannot read a non-empty plain encoding
+		}
+		for tk := 0; tk < 2; tk++ {
+			target := gen.StoreSpec{Kind: tk} // dense, sparse: single accumulation order
+			var d mon.Sketch
+			var derr error
+			if c.Guard("Decode", func() { d, derr = mon.Decode(dec, e, target, m.M) }) {
+				return
+			}
+			if !dec && exact {
+				c.Count("oracle.plain_decoder_on_exact_encoding", 1)
+			}
+			if derr != nil {
+				c.Failf("decoder_rejects_valid_stream", "decoding (exact decoder=%v) the encoding of a sketch (exact=%v) with arbitrary float weights returned %v; blocks %v", dec, exact, derr, blockNames(blocks, 12))
+				return
+			}
+			gp, _, _ := mon.ForEachBins(d.I().GetPositiveValueStore())
+			gn, _, _ := mon.ForEachBins(d.I().GetNegativeValueStore())
+			chk := func(side string, got []mon.KV, want map[int64]float64) {
+				if len(got) != len(want) {
+					c.Failf("arbitrary.bins", "%s: %d bins decoded, the stream holds %d", side, len(got), len(want))
+					return
+				}
+				for _, b := range got {
+					if w, ok := want[int64(b.K)]; !ok || math.Float64bits(w) != math.Float64bits(b.W) {
+						c.Failf("arbitrary.weight", "%s bin %d decoded as %v, the stream holds %v", side, b.K, b.W, w)
+						return
+					}
+				}
+			}
+			chk("positive", gp, ct.Pos)
+			chk("negative", gn, ct.Neg)
+			if d.I().GetZeroCount() != ct.Zero {
+				c.Failf("arbitrary.zero", "zero count decoded as %v, the stream holds %v", d.I().GetZeroCount(), ct.Zero)
+			}
+		}
+	}
+	c.NonTrivial()
 }
 
 func blockNames(b []wire.Block, n int) []string {
